@@ -26,6 +26,7 @@ func collect(repo string, f *facts) {
 	cfgFacts(f)
 	clientFacts(f)
 	bufferFacts(f)
+	diskFacts(f)
 }
 
 // ---- C16: Must… / panic sites in constructors ----
@@ -963,4 +964,129 @@ func bufferFacts(f *facts) {
 		}
 	}
 	f.strs["buffer_save_everything"] = save
+}
+
+// ---- C04: chunk persistence ----
+func diskFacts(f *facts) {
+	const files = "util/files.go"
+	f.note["disk_write_steps"] = "util.WriteFileAt: system calls in source order (with the name they act on); the unlink must be inside `if werr != nil`"
+	var steps []string
+	if fd := fn(files, "WriteFileAt", ""); fd != nil {
+		var walk func(n ast.Node, inErr bool)
+		walk = func(n ast.Node, inErr bool) {
+			inspect(n, func(m ast.Node) bool {
+				switch x := m.(type) {
+				case *ast.IfStmt:
+					if m == n {
+						return true
+					}
+					if x.Init != nil {
+						walk(x.Init, inErr)
+					}
+					walk(x.Body, inErr || src(x.Cond) == "werr != nil")
+					if x.Else != nil {
+						walk(x.Else, inErr)
+					}
+					return false
+				case *ast.CallExpr:
+					switch src(x.Fun) {
+					case "unix.Openat":
+						steps = append(steps, "Openat("+src(x.Args[1])+")")
+					case "unix.Write":
+						steps = append(steps, "Write")
+					case "writeAll":
+						steps = append(steps, "writeAll")
+					case "unix.Close":
+						steps = append(steps, "Close")
+					case "unix.Renameat":
+						steps = append(steps, "Renameat("+src(x.Args[1])+"->"+src(x.Args[3])+")")
+					case "unix.Unlinkat":
+						t := "Unlinkat(" + src(x.Args[1]) + ")"
+						if inErr {
+							t += " on error"
+						}
+						steps = append(steps, t)
+					}
+				}
+				return true
+			})
+		}
+		walk(fd.Body, false)
+	}
+	f.strs["disk_write_steps"] = steps
+	f.note["disk_write_loop"] = "util.writeAll: loop condition, the write call and how the slice advances"
+	var loop []string
+	if fd := fn(files, "writeAll", ""); fd != nil {
+		inspect(fd.Body, func(n ast.Node) bool {
+			switch x := n.(type) {
+			case *ast.ForStmt:
+				loop = append(loop, "for "+src(x.Cond))
+			case *ast.AssignStmt:
+				t := src(x)
+				if strings.Contains(t, "unix.Write") || strings.HasPrefix(t, "data = ") {
+					loop = append(loop, t)
+				}
+			}
+			return true
+		})
+	}
+	f.strs["disk_write_loop"] = loop
+	f.note["disk_temp_suffix"] = "util.TempFileSuffix"
+	f.strs["disk_temp_suffix"] = nil
+	if bl, ok := pkgValue(files, "TempFileSuffix").(*ast.BasicLit); ok {
+		v, _ := strconv.Unquote(bl.Value)
+		f.strs["disk_temp_suffix"] = []string{v}
+	}
+	f.note["disk_matchers"] = "MatchChunkID of fluentdforward and datadog: the returned expression"
+	var ms []string
+	for _, file := range []string{"output/fluentdforward/config.go", "output/datadog/config.go"} {
+		if fd := fn(file, "MatchChunkID", "Config"); fd != nil && len(fd.Body.List) == 1 {
+			if r, ok := fd.Body.List[0].(*ast.ReturnStmt); ok && len(r.Results) == 1 {
+				ms = append(ms, src(r.Results[0]))
+			}
+		}
+	}
+	f.strs["disk_matchers"] = ms
+	f.note["disk_unload_order"] = "chunkOperator.UnloadChunk: the write, the early return on its error, then the release of the data and the saved mark"
+	var ord []string
+	if fd := fn("buffer/hybridbuffer/chunkoperator.go", "UnloadChunk", "chunkOperator"); fd != nil {
+		inspect(fd.Body, func(n ast.Node) bool {
+			switch x := n.(type) {
+			case *ast.IfStmt:
+				if x.Init != nil && strings.Contains(src(x.Init), "util.WriteFileAt") {
+					ord = append(ord, "WriteFileAt")
+					if src(x.Cond) == "werr != nil" && endsInReturn(x.Body) && strings.Contains(src(x.Body), "return false") {
+						ord = append(ord, "return false on error")
+					}
+					return false
+				}
+			case *ast.AssignStmt:
+				switch strings.Join(strings.Fields(src(x)), " ") {
+				case "chunkRef.Data = nil":
+					ord = append(ord, "Data = nil")
+				case "chunkRef.Saved = true":
+					ord = append(ord, "Saved = true")
+				}
+			}
+			return true
+		})
+	}
+	f.strs["disk_unload_order"] = ord
+	f.note["disk_zero_length_check"] = "outputFeeder.loadToOutput: zero-length data is reported as corrupt before anything is sent"
+	var zl []string
+	if fd := fn("buffer/hybridbuffer/outputfeeder.go", "loadToOutput", "outputFeeder"); fd != nil {
+		sent := false
+		inspect(fd.Body, func(n ast.Node) bool {
+			switch x := n.(type) {
+			case *ast.SendStmt:
+				sent = true
+			case *ast.IfStmt:
+				if src(x.Cond) == "len(chunk.Data) == 0" && strings.Contains(src(x.Body), "OnChunkCorrupted") && endsInReturn(x.Body) && !sent {
+					zl = append(zl, "len(chunk.Data) == 0 -> OnChunkCorrupted")
+				}
+			}
+			return true
+		})
+	}
+	f.strs["disk_zero_length_check"] = zl
 }
